@@ -211,6 +211,7 @@ def directed_pairs(rng) -> list[dict]:
     dft19n = '<ir_version: 9, opset_import: ["" : 19]>\nagraph (float[1,4,4,1] x) => (float[?,?,?,?] y)\n{\n  val_0 = Identity (x)\n  val_1 = DFT <axis = 2> (val_0)\n  y = Identity (val_1)\n}\n'
     grid19 = '<ir_version: 9, opset_import: ["" : 19]>\nagraph (float[1,1,2,2] x, float[1,2,2,2] g) => (float[?,?,?,?] y)\n{\n  t0 = GridSample <mode = "bilinear"> (x, g)\n  y = Relu (t0)\n}\n'
     gn20 = '<ir_version: 9, opset_import: ["" : 20]>\nagraph (float[1,4,2,2] x) => (float[?,?,?,?] y)\n<float[2] sc = {1,2}, float[2] bi = {0,1}>\n{\n  t0 = GroupNormalization <num_groups = 2> (x, sc, bi)\n  y = Relu (t0)\n}\n'
+    plain21 = '<ir_version: 10, opset_import: ["" : 21]>\nagraph (float[3] x) => (float[3] y)\n{\n  a = Relu (x)\n  y = Neg (a)\n}\n'  # ->20: down-conversion raises inside the inner pass
     plain19 = '<ir_version: 9, opset_import: ["" : 19]>\nagraph (float[3] x) => (float[3] y)\n{\n  a = Relu (x)\n  y = Neg (a)\n}\n'
     fold_sym = H18 + "agraph (float[N,4] x) => (int64[2] y)\n{\n  s = Shape (x)\n  y = Identity (s)\n}\n"
     fold_sym2 = H18 + "agraph (float[B,S,8] x) => (int64[1] y)\n<int64[1] st = {0}, int64[1] en = {1}>\n{\n  s = Shape (x)\n  y = Slice (s, st, en)\n}\n"
@@ -251,6 +252,17 @@ def directed_pairs(rng) -> list[dict]:
         {"tag": "stash:FuseConvIntegerPad rejected-after-write then ok", "history": [M("rewrite", cpi_bad)], "target": M("rewrite", cpi_ok)},
         {"tag": "stash:LayerNorm eps then other eps", "history": [M("rewrite", ln1, rules="layer_norm")], "target": M("rewrite", ln2, rules="layer_norm")},
         {"tag": "failing:rewrite aborted by an exception then ok", "history": [M("rewrite", boom, rules="default_then_boom"), M("rewrite", boom, rules="boom_first")], "target": M("rewrite", rr_ok)},
+        {"tag": "failing:rule set object abandoned by an exception, then the SAME rule set object names new values",
+         "history": [M("rewrite", boom, rules="default_then_boom"), M("rewrite", unsq_named, rules="default_then_boom")],
+         "target": M("rewrite", unsq_plain, rules="default_then_boom")},
+        {"tag": "failing:ConvertVersionPass abandoned inside an adapter, then the SAME pass object",
+         "history": [M("convert_pass", dft19, target=20), M("convert_pass", plain21, target=20), M("convert_pass", grid19, target=20)], "target": M("convert_pass", dft19n, target=20)},
+        {"tag": "fold:evaluator lookup below the version boundary, then the same op above it (Softmax 12 -> 13)",
+         "history": [G.m_evaluator_version(_rr, 12, "Softmax")[0]], "target": G.m_evaluator_version(_rr, 13, "Softmax")[0]},
+        {"tag": "fold:evaluator lookup above the boundary, then below (LogSoftmax 13 -> 11)",
+         "history": [G.m_evaluator_version(_rr, 13, "LogSoftmax")[0]], "target": G.m_evaluator_version(_rr, 11, "LogSoftmax")[0]},
+        {"tag": "fold:evaluator lookup, three versions of one op (Hardmax 1, 18 -> 13)",
+         "history": [G.m_evaluator_version(_rr, 1, "Hardmax")[0], G.m_evaluator_version(_rr, 18, "Hardmax")[0]], "target": G.m_evaluator_version(_rr, 13, "Hardmax")[0]},
         {"tag": "fold:modified then unmodified (shared pass)", "history": [M("fold", fold_mod)], "target": M("fold", fold_keep)},
         {"tag": "fold:interrupted then unmodified (shared pass)", "history": [M("fold", fold_mod, raise_on="Add")], "target": M("fold", fold_keep)},
         {"tag": "fold:symbolic values recorded then none (shared pass)", "history": [M("fold", fold_sym)], "target": M("fold", fold_keep)},
@@ -303,6 +315,9 @@ class Checker:
         self.names: dict = {}
         self.ctrls: dict = {}
         self.model_lines: list[tuple[str, str, dict]] = []  # (driver line, expected, case)
+        # entry objects (generated entryRows): class -> entry method; the worker records every call's field-access trace
+        self.entry_map = {r["name"]: r["entry"] for r in rows.get("globals", {}).get("entryRows", []) if r["name"] != "Converter"}
+        self.ecalls: Counter = Counter()
 
     # ---- differential on (history, target) pairs
     def differential(self, pairs: list[dict], seeds_fresh=SEEDS, monitor_every=2) -> None:
@@ -321,7 +336,8 @@ class Checker:
                 hs = pr.get("hseeds") or [SEEDS[(pi + 1) % len(SEEDS)], SEEDS[(pi + 3) % len(SEEDS)]]
                 for j, s in enumerate(hs):
                     mon = (pi + j) % monitor_every == 0
-                    jobs.append((s, {"id": f"p{pi}-hist-{s}", "ops": [strip_op(o) for o in pr["history"]] + [t], "monitor": mon}))
+                    jobs.append((s, {"id": f"p{pi}-hist-{s}", "ops": [strip_op(o) for o in pr["history"]] + [t], "monitor": mon,
+                                     "entry": self.entry_map if mon else None}))
                     index.append((pi, "hist", s))
         reps = self.pool.run(jobs)
         per: dict[int, dict] = {}
@@ -473,8 +489,16 @@ class Checker:
                     self.stats["fresh_value_names_skipping_existing"] += int(any(n.startswith("val_") for n in res["names_before"]) and bool(res["new_val_names"]))
             elif op["k"] == "model" and op.get("op") == "fold" and not res.get("err"):
                 self.stats["fold_modified" if res.get("modified") else "fold_unmodified"] += 1
+            if op["k"] == "model" and op.get("watch_op") and "watch_left" in res:
+                # evaluator lookup is a function of (domain, op, VERSION): Softmax family has no evaluator below opset 13
+                self.model_lines.append((f"evalgap ~ {op['watch_op']} {op['watch_opset']}", f"left={int(res['watch_left'] > 0)}", case))
+                self.stats["evaluator_version_cases"] += 1
+                self.stats["evaluator_gap_below_13_not_folded" if res["watch_left"] else "evaluator_from_13_folded"] += 1
+                self.stats[f"evaluator_version_opset_{op['watch_opset']}"] += 1
         for k, v in (rep.get("events") or {}).items():
             self.events[k] += v
+        for k, v in (rep.get("ecalls") or {}).items():
+            self.ecalls[k] += v
         for n in rep.get("names") or []:
             self.names[json.dumps(n)] = n
         for c in rep.get("ctrl") or []:
@@ -626,11 +650,40 @@ class Checker:
                 lines.append(f"rowcover {rname} W={csvs(sorted(a['W']))} R2={csvs(sorted(a['R2']))}")
                 exps.append(("rowcover", rname))
                 cases.append({"kind": "rowcover", "rule": rname, "observed_writes": sorted(a["W"]), "observed_rewrite_reads": sorted(a["R2"])})
+        # small-step traces of the entry objects: every monitored call (completed or abandoned by an exception) must obey
+        # the discipline of its generated row (Lean `traceCheck`; theorem entry_call_fault_tolerant_history_independent),
+        # and over the whole run the fields the row lists as assigned must all have been seen assigned (row exact)
+        eagg: dict[str, set] = {}
+        for k, n in self.ecalls.items():
+            cls, raised, after, tr = json.loads(k)
+            lines.append(f"etrace {cls} {csvs(tr)}")
+            exps.append(("etrace", cls, raised, after, n))
+            cases.append({"kind": "etrace", "class": cls, "raised": bool(raised), "previous_call_on_object_raised": bool(after), "trace": tr})
+            eagg.setdefault(cls, set()).update(e[2:] for e in tr if e.startswith("w:"))
+        for cls, W in sorted(eagg.items()):
+            lines.append(f"ecover {cls} W={csvs(sorted(W))}")
+            exps.append(("ecover", cls))
+            cases.append({"kind": "ecover", "class": cls, "observed_writes": sorted(W)})
         outs = self.drv.ask(lines)
         for line, exp, case, out in zip(lines, exps, cases, outs):
             self.stats["model_lines"] += 1
             kind = exp[0]
-            if kind == "event":
+            if kind == "etrace":
+                _, cls, raised, after, n = exp
+                self.stats["entry_calls"] += n
+                self.stats["entry_traces_distinct"] += 1
+                self.stats[f"entry_calls:{cls}"] += n
+                if raised:
+                    self.stats[f"entry_calls_abandoned:{cls}"] += n
+                if after:
+                    self.stats[f"entry_calls_after_abandoned:{cls}"] += n
+                if out != "conforms":
+                    self.tie_failures.append((case, f"an object of entry class {cls} did, in one call of its entry method, something its generated row does not admit: {out}"))
+            elif kind == "ecover":
+                self.stats["entry_rows_checked_exact"] += 1
+                if out != "exact":
+                    self.tie_failures.append((case, f"generated entry row of {exp[1]} lists assigned fields never observed assigned in the run: {out}"))
+            elif kind == "event":
                 _, rule, ok, stale, n = exp
                 self.stats["try_rewrite_events"] += n
                 if out == "unknown":
@@ -1012,6 +1065,15 @@ def main(run: core.Run) -> None:
             "true_fresh_processes", "history_failing_ops", "script_override_calls", "global_mutations_checked", "kw_model_lines",
             "fresh_value_names_created", "fresh_value_names_skipping_existing", "op:model:convert_pass", "convert_pass_adapter_values_named", "convert_pass_skipping_existing_val_names", "header_cases", "header_graph_without_std_opset", "header_std_from_function", "header_with_opset_version_kw", "header_std_from_kw_or_latest", "header_std_from_opset_version_kw",
         ]
+        # the entry classes the worker holds objects of (a changed tree may add rows, e.g. for newly held helper objects: those have
+        # no monitored instance and are judged by the table theorem and the differential runs, not by a counter)
+        MONITORED_ENTRY = ("SimplePatternMatcher", "FoldConstantsPass", "RewritePass", "RewriteRuleSet", "RewriteRule",
+                           "ConvertVersionPass", "_ConvertVersionPassRequiresInline")
+        required += [f"entry_calls:{c}" for c in MONITORED_ENTRY if c in chk.entry_map]
+        required += [f"entry_calls_abandoned:{c}" for c in ("FoldConstantsPass", "RewriteRuleSet", "RewriteRule", "ConvertVersionPass", "_ConvertVersionPassRequiresInline")]
+        required += [f"entry_calls_after_abandoned:{c}" for c in ("FoldConstantsPass", "RewriteRuleSet", "RewriteRule", "ConvertVersionPass", "_ConvertVersionPassRequiresInline")]
+        required += ["entry_rows_checked_exact"]
+        required += ["evaluator_gap_below_13_not_folded", "evaluator_from_13_folded", "evaluator_version_opset_12", "evaluator_version_opset_13"]
         zero = [k for k in required if not st[k]]
         if not (st["multi_domain_new_2"] + st["multi_domain_new_3"] + st["multi_domain_new_4"]):
             zero.append("multi_domain_new_>=2")
@@ -1020,7 +1082,10 @@ def main(run: core.Run) -> None:
                 zero.append(f"row_monitored_ok:{cname}")
         run.coverage["required_counters"] = {k: st[k] for k in required}
         run.coverage["stash_rows_monitored"] = dict(getattr(chk, "row_required", []))
-        if zero:
+        reported = bool(chk.prop_failures or chk.tie_failures or not audit["ok"])
+        if zero and not reported:  # a reported behavioural difference is never turned into an infrastructure exit
             raise core.Infra("required coverage counters are zero (generator/monitor degenerated): " + ", ".join(zero))
+        if zero:
+            run.coverage["required_counters_zero_on_a_reported_tree"] = zero
         if st["target_raises_when_fresh"] > 0.3 * st["pairs"]:
             raise core.Infra("generator degenerated: >30% of targets raise in a fresh process")
